@@ -137,6 +137,7 @@ func c05(run *ev.Run, tier string) {
 		maxLen = 3
 	}
 	run.Rule = fmt.Sprintf("part 1 (bounded-exhaustive): every content list of length <= %d over 6 overlapping destinations (two of them in two spellings) x {file, config, dir, symlink, ghost, tree} x packager tag {'', deb, rpm}, prepared for {deb, rpm, apk}: result compared with a set-based reference planner (collision <=> same path twice or entry beneath a non-directory; explicit dir may replace an implied one), collision errors must be ErrContentCollision, the returned list must satisfy the normal-form invariants, and a sample is repeated 25x to expose map-order dependence. part 2 (exhaustive): every destination spelling up to length %d over {a,/,.} for file, dir and symlink entries: normal-form invariants. part 3: generated larger lists (globs, trees, per-packager entries) compared with the reference plan of C01, repeated 25x. non-trivial = list with >=2 entries relevant to the target (part 1) / spelling that is not already normal (part 2); distinct = the list itself", maxLen, map[bool]int{false: 5, true: 6}[tier == "thorough"])
+	run.Rule += "; through the nfpm binary: entries addressed to another packager that collide among themselves, for every (addressed, built) pair"
 	run.SetExhaustive(true)
 	dir := newWorkDir("c05")
 	defer removeWorkDir(dir)
